@@ -62,7 +62,7 @@ pub fn cases(ctx: &Ctx, extra: &[String]) {
     };
     let allowed_h = |i: usize| -> Vec<u32> { HEIGHTS.iter().copied().filter(|h| *h <= hs[i] && affordable(*h)).collect() };
     let allowed_w = |i: usize| -> Vec<u32> { WSL.iter().copied().filter(|w| *w >= ws[i]).collect() };
-    let reps = ctx.size(2, 6);
+    let reps = ctx.size(1, 5);
     for alg in model::ALL_ALGS {
         for len in 1..=nlevels {
             if (0..len).any(|i| allowed_h(i).is_empty()) {
@@ -78,14 +78,20 @@ pub fn cases(ctx: &Ctx, extra: &[String]) {
                 lists.push((0..len).map(|i| Level { h: *rng.pick(&allowed_h(i)), w: *rng.pick(&allowed_w(i)) }).collect());
             }
             for mut lv in lists {
-                // keep signing affordable: at most one H10 level, and cheap W on it for long lists
+                // keep signing affordable: at most one H10 level (SHA-2 only, W >= 4 on it)
                 let mut tens = 0;
-                for l in lv.iter_mut() {
+                for (li, l) in lv.iter_mut().enumerate() {
                     if l.h == 10 {
                         tens += 1;
-                        if tens > 1 {
+                        let w_ok = ws[li] <= 8;
+                        if tens > 1 || alg.is_shake() {
                             l.h = 5;
+                        } else if l.w < 4 && w_ok {
+                            l.w = l.w.max(ws[li]).max(4);
                         }
+                    }
+                    if l.h == 5 && alg.is_shake() && l.w == 8 && ws[li] <= 4 {
+                        l.w = 4;
                     }
                 }
                 emit("IN", alg, &lv, &mut rng);
@@ -135,16 +141,33 @@ fn o<T>(out: &Out<T>, f: impl Fn(&T) -> String) -> String {
     }
 }
 
-/// Execute every case line and print one transcript line per case.
-pub fn worker() {
+/// Execute every case line (in parallel) and print one transcript line per case, in input order.
+pub fn worker(ctx: &Ctx) {
     let stdin = std::io::stdin();
+    let lines: Vec<String> = stdin.lock().lines().map(|l| l.unwrap()).collect();
+    let n = lines.len();
+    let results: Vec<std::sync::Mutex<String>> = (0..n).map(|_| std::sync::Mutex::new(String::new())).collect();
+    let idx: Vec<usize> = (0..n).collect();
+    let lines_ref = &lines;
+    let results_ref = &results;
+    let _ = crate::common::par_run(ctx, idx, |i, _w| {
+        *results_ref[i].lock().unwrap() = run_line(&lines_ref[i]);
+    });
     let out = std::io::stdout();
     let mut out = out.lock();
-    for line in stdin.lock().lines() {
-        let line = line.unwrap();
+    for r in results {
+        let s = r.into_inner().unwrap();
+        if !s.is_empty() {
+            writeln!(out, "{}", s).unwrap();
+        }
+    }
+}
+
+fn run_line(line: &str) -> String {
+    {
         let f: Vec<&str> = line.split_whitespace().collect();
         if f.len() < 6 {
-            continue;
+            return String::new();
         }
         let kind = f[0];
         let alg = Alg::from_name(f[1]).unwrap();
@@ -158,7 +181,7 @@ pub fn worker() {
         // a key file written by the default build (the model knows the format) is loaded here
         let mut blob = hss::make_blob(counter, &lv, &seed);
         let tallest = lv.iter().map(|l| l.h).max().unwrap();
-        if tallest > 15 {
+        if tallest > 15 || (tallest > 10 && alg.is_shake()) {
             // trees of that size cannot be generated; only keygen (top tree) is observable
             t.push("lifetime=skipped-too-tall sign=skipped-too-tall".into());
         } else {
@@ -177,6 +200,14 @@ pub fn worker() {
                 let v2 = libcall::verify(alg, &m2, sig, &k.vk, VerifyEntry::Bytes);
                 t.push(format!("verify_other={}", o(&v2, |_| String::new())));
             }
+            // aux data written and used by this build
+            if kind == "IN" {
+                let mut aux = crate::libcall::AuxBuf::new(vec![0u8; 2500]);
+                let kga = libcall::keygen(alg, &lv, &seed, Some(&mut aux));
+                t.push(format!("keygen_aux={}", o(&kga, |k| format!("{}:{}:{}", hex(&model::alg::sha256(&[&k.vk])), aux.used, hex(&model::alg::sha256(&[aux.used_part()]))))));
+                let reca = libcall::sign_bytes(alg, &blob, &msg, Cb::Accept, Some(&mut aux));
+                t.push(format!("sign_aux={}", o(&reca.result, |s| hex(&model::alg::sha256(&[s])))));
+            }
             // the last leaf of the key: successor must be the wiped key
             let total = hss::total_leaves(&lv);
             if kind == "IN" && total <= u64::MAX as u128 {
@@ -189,6 +220,6 @@ pub fn worker() {
                 ));
             }
         }
-        writeln!(out, "{} | {}", line, t.join(" ")).unwrap();
+        format!("{} | {}", line, t.join(" "))
     }
 }
